@@ -317,6 +317,43 @@ theorem rx_host_exactly_once (c : FullConfig) (hc : IsSerial c) (h : List AEvent
   · simp [c2, c4, c5]
   · rw [hr0] at c3; cases c3
 
+/-! ## The ghost's "token detector shows OUT / 4" is "the previous event was the OUT token for endpoint 4" -/
+
+theorem tokPid_token_mine (c : FullConfig) (s : FullState) (pid ep : Nat) :
+    (Full.step c s (.token pid s.ctl.address ep)).1.ctl.tokPid = pid := by
+  rw [step_ctl, step_tokPid]
+  simp only [core, if_true]
+  rw [(onToken_ctl c.dev s.ctl pid ep).tokPid]
+  rfl
+
+/-- The ghost's test "the token detector shows an OUT token for endpoint 4" at a data packet says what one expects:
+for a data packet that is legal by the host's packet grammar (`Device.legalEvent`: it follows an OUT / SETUP token,
+or an IN token of another device), the detector shows OUT / 4 exactly when the event before it was an OUT token
+for endpoint 4 carrying the device's address. -/
+theorem out_data_follows_out_token (c : FullConfig) (s0 : FullState) (e : HostEvent)
+    (hl : let s := (Full.step c s0 e).1.ctl
+          (s.gPrevTok == PID_OUT || s.gPrevTok == PID_SETUP || (s.gPrevTok == PID_IN && s.tokPid == 0)) = true) :
+    ((Full.step c s0 e).1.ctl.tokPid = PID_OUT ∧ (Full.step c s0 e).1.ctl.tokEp = 4) ↔
+      e = .token PID_OUT s0.ctl.address 4 := by
+  constructor
+  · rintro ⟨h1, h2⟩
+    have hg : (Full.step c s0 e).1.ctl.gPrevTok = tokenPidOf e := by rw [step_ctl]; rfl
+    simp only [hg, h1] at hl
+    cases e with
+    | token pid addr ep =>
+      by_cases ha : addr = s0.ctl.address
+      · subst ha
+        rw [tokPid_token_mine] at h1
+        rw [tokEp_token_mine] at h2
+        rw [h1, h2]
+      · have : (Full.step c s0 (.token pid addr ep)).1.ctl.tokPid = 0 := by
+          rw [step_ctl, step_tokPid]; simp only [core, if_neg ha]
+        rw [this] at h1; exact absurd h1 (by decide)
+    | _ => simp [tokenPidOf, PID_OUT, PID_SETUP, PID_IN] at hl
+  · intro he
+    subst he
+    exact ⟨tokPid_token_mine c s0 PID_OUT 4, tokEp_token_mine c s0 PID_OUT 4⟩
+
 /-! ## Non-vacuity -/
 
 /-- Enumeration; [1, 2, 3] ACKed but the host misses the ACK, retransmitted (ACKed, not delivered again); a corrupted
